@@ -43,9 +43,10 @@ def steps_of(ev):
 
 
 def judge(ctx, log, label):
-    rej = ctx.validate_execs("MidiMapperTrace", "MidiMapperTrace.cfg", log, timeout=1800)
+    rej = ctx.validate_execs("MidiMapperTrace", "MidiMapperTrace.cfg", log, timeout=1800, multi=True)
     recs = ctx.read_ndjson(log)
     nstruct = 0
+    MODEL_FREE = ("real_unique_ids", "real_drives_bound_address", "value_out_of_range")
     for i, r in enumerate(recs, 1):
         ctx.evaluations += len(r["ev"])
         if sum(1 for e in r["ev"] if e["op"] == "cc" and e["out"]) >= 2:
@@ -54,11 +55,20 @@ def judge(ctx, log, label):
             ctx.reject(dict(clause="crash_or_memory_error", source=label, stray_bind_before=stray_before(r["ev"], len(r["ev"]))), dict(steps=steps_of(r["ev"])),
                        "crash/ASan report in a %s MIDI-learn history of %d calls: %s" % (label, len(r["ev"]), r.get("asan_what")))
         if i in rej:
-            cl, l = rej[i]
-            real = [c for c in cl if c not in STRUCT]
-            if not real:
+            # every judged step of the execution, in order.  Once the halves have exchanged other messages than the model's (structure_*), model and code
+            # have parted ways: from there on only the clauses that speak about the real objects alone are judged (the others would compare apples and pears)
+            steps = sorted(rej[i], key=lambda t: t[1])
+            parted = min([l for cl, l in steps if any(c in STRUCT for c in cl)] or [10 ** 9])
+            hit = None
+            for cl, l in steps:
+                real = [c for c in cl if c not in STRUCT and (l < parted or c in MODEL_FREE)]
+                if real:
+                    hit = (real, l)
+                    break
+            if hit is None:
                 nstruct += 1
                 continue
+            real, l = hit
             sb = stray_before(r["ev"], l)
             cleared = any(e["op"] == "clear" for e in r["ev"][:l])      # a clear() leaves the watches of the dropped requests armed
             for c in real:
